@@ -173,7 +173,10 @@ PIX_KINDS = G.SIMPLE_KINDS + G.EMPTY_KINDS
 
 def gen_pix_leaf(rng, wd, kind=None):
     kind = kind or rng.choice(PIX_KINDS)
-    d = G.gen_simple(rng, kind=kind, scale=size_scale(rng, wd), center_scale=0, include='absent')
+    sc = size_scale(rng, wd)
+    d = G.gen_simple(rng, kind=kind, scale=sc, center_scale=0, include='absent')
+    if d.get('h', 0.0) > 8.0 * sc:          # regiongen's 1:100 aspect ratio: keep the long side inside the field
+        d['h'] = d['w'] * 0.01
     R = field_radius(wd)
     r = R * math.sqrt(rng.random())
     t = rng.uniform(0, 2 * math.pi)
@@ -199,7 +202,7 @@ def gen_pix_compound(rng, wd, depth):
     b = gen_pix_compound(rng, wd, rng.randint(0, depth - 1))
     # bring b next to a so that the combination is not trivially empty
     ca, cb = G.approx_center(a), G.approx_center(b)
-    sa = G.approx_size(a)
+    sa = min(G.approx_size(a), 60.0)
     move_desc(b, ca[0] - cb[0] + rng.uniform(-0.7, 0.7) * sa, ca[1] - cb[1] + rng.uniform(-0.7, 0.7) * sa)
     d = {'kind': 'compound', 'op': rng.choice(['and', 'or', 'xor']), 'a': a, 'b': b}
     # how the constructor is called: explicit dictionaries, or None (= region1's)
@@ -550,6 +553,8 @@ def compute(case):
         py = np.array([p[1] for p in pts], dtype=float)
         skypts = wcs.pixel_to_world(px, py)
         ptsback = PixCoord.from_sky(skypts, wcs)
+        if not _finite(sky_points(sky), pix_points(back), lonlat(skypts)[0], lonlat(skypts)[1], ptsback.x, ptsback.y):
+            return {'real': {'finite': False}, 'req': None}      # outside the domain of the WCS: no statement
         real = {'start': canon_pix(reg), 'sky': canon_sky(sky), 'back': canon_pix(back),
                 'contains_pix': [bool(v) for v in np.ravel(reg.contains(PixCoord(px, py)))],
                 'contains_sky': [bool(v) for v in np.ravel(sky.contains(skypts, wcs))]}
@@ -581,6 +586,8 @@ def compute(case):
     skypts = SkyCoord([p[0] for p in pts] * u.deg, [p[1] for p in pts] * u.deg, frame=frame)
     pp = PixCoord.from_sky(skypts, wcs)
     ppx, ppy = np.ravel(pp.x).astype(float), np.ravel(pp.y).astype(float)
+    if not _finite(pix_points(pix), sky_points(back), ppx, ppy):
+        return {'real': {'finite': False}, 'req': None}
     real = {'start': canon_sky(sreg), 'pix': canon_pix(pix), 'back': canon_sky(back),
             'contains_sky': [bool(v) for v in np.ravel(sreg.contains(skypts, wcs))],
             'contains_pix': [bool(v) for v in np.ravel(pix.contains(pp))],
@@ -743,7 +750,7 @@ class Check(PropertyCheck):
 
     # -------------------------------------------------------------- generation
     def generate(self, rng, tier):
-        n_wcs = 150 if tier == 'quick' else 4000
+        n_wcs = 130 if tier == 'quick' else 2000
         cases = []
         for _ in range(n_wcs):
             wd = gen_wcs(rng)
@@ -964,8 +971,9 @@ class Check(PropertyCheck):
         return sep > 1e-6 * max(size, scale_as)
 
     def finding_match(self, finding, violation):
-        """F2 only: a compound node whose non-empty dictionaries came back EMPTY, or the membership change that is exactly
-        explained by the lost include flag."""
+        """F2 (fixed in 23f75f4; matters only if the entry is ever re-opened): a compound node whose non-empty dictionaries
+        came back EMPTY, or the membership change that is exactly explained by the lost include flag.  With the entry
+        `fixed`, a regression is a VIOLATION (corpus/C06/f2_compound_meta.json replays the original witness first)."""
         return (finding.get('id') == 'F2' and violation.get('f2_class') is True
                 and violation.get('kind') in ('compound_meta_lost', 'compound_membership_changed'))
 
